@@ -149,6 +149,7 @@ type Node struct {
 	kc *keys.VerifKeyCache
 
 	hook          func(*config.Blockchain)
+	rpc           *rpcFront
 	prevBal       *ledgerBalances
 	prevBalHeight uint32
 }
@@ -276,6 +277,10 @@ func (n *Node) Restart() error {
 
 // Stop closes the node (flushes, closes the store).
 func (n *Node) Stop() {
+	if n.rpc != nil {
+		n.rpc.cancel()
+		n.rpc = nil
+	}
 	if n.closed || n.BC == nil {
 		return
 	}
